@@ -2,7 +2,7 @@
     Model and specification: GRModel.v; address arithmetic of mfgr.c: gen/Gen_GR.v (regenerated each run). *)
 From Coq Require Import List Arith Bool ZArith.
 Import ListNotations.
-Require Import H4.gen.Gen_GR H4.GRModel H4.GRProofs.
+Require Import H4.gen.Gen_GR H4.gen.Gen_Conv H4.GRModel H4.GRProofs.
 
 (** Each of the three interlace index functions is a bijection between the (row, column, component)
     triples of an X x Y x nc buffer and [0, X*Y*nc), with inverse il_decode. *)
@@ -111,6 +111,20 @@ Theorem rle_image_roundtrip : forall w h bytes,
 Proof. exact rle_image_roundtrip_lemma. Qed.
 Print Assumptions rle_image_roundtrip.
 
+(** Image metadata persistence, number type: for each of the 20 number types of the domain (bound in the
+    statement: gr_number_types = 10 standard + 10 DFNT_LITEND) the type is known to DFKNTsize (selector
+    regenerated from dfconv.c) and an image created with it comes back from GRend / reopen -- DFTAG_NT record
+    bytes regenerated from GRIupdatemeta, read back as GRIget_image_list does -- with the same number type, also
+    after a second save, and with the same byte order of its components. *)
+Theorem nt_persists_reopen : forall nt,
+    In nt gr_number_types ->
+    (exists cs, nt_size nt = Some cs /\ 1 <= cs /\
+                nt_swapped (fst (reopen_nt nt DFNTF_HDFDEFAULT)) cs = nt_swapped nt cs) /\
+    fst (reopen_nt nt DFNTF_HDFDEFAULT) = nt /\
+    fst (reopen_nt (fst (reopen_nt nt DFNTF_HDFDEFAULT)) (snd (reopen_nt nt DFNTF_HDFDEFAULT))) = nt.
+Proof. exact nt_persists_lemma. Qed.
+Print Assumptions nt_persists_reopen.
+
 (** Non-vacuity and concrete instances. *)
 Example walk_line_to_pixel :
   il_convert_walk ILline ILpixel 3 2 2 1 [1;2;3;4;5;6;7;8;9;10;11;12] (repeat 0 12)
@@ -140,3 +154,7 @@ Example rle_long_run :
   dfrle_encode (repeat 7 130 ++ [1; 2; 2; 2; 2]) = [248; 7; 138; 7; 1; 1; 132; 2]
   /\ dfrle_decode [248; 7; 138; 7; 1; 1; 132; 2] = repeat 7 130 ++ [1; 2; 2; 2; 2].
 Proof. vm_compute. auto. Qed.
+Example litend_type_in_domain :
+  In (Z.lor DFNT_UINT16 DFNT_LITEND) gr_number_types /\ nt_size (Z.lor DFNT_UINT16 DFNT_LITEND) = Some 2
+  /\ reopen_nt (Z.lor DFNT_UINT16 DFNT_LITEND) DFNTF_HDFDEFAULT = (Z.lor DFNT_UINT16 DFNT_LITEND, DFNTF_PC).
+Proof. vm_compute. intuition. Qed.
